@@ -17,7 +17,7 @@ Nothing here depends on names of static functions, locals or parameters, or on t
 import re
 
 from ..core import (AnalysisBroken, Inliner, canon, strip, last_member, walk, norm_cond, forward, names_of,
-                    lvalue_steps, members, method_slot, is_int, subst, simplify, PURE_CALLS)
+                    lvalue_steps, members, method_slot, is_int, subst, simplify, strip_load, PURE_CALLS)
 from ..analyses import callback_kind
 from .. import roles
 
@@ -30,6 +30,10 @@ COUNTER = (STATE, 'task_epoch')
 PENDING = (STATE, 'tasks')
 CURRENT = (STATE, 'tasks_current')
 NUMOBJS = (STATE, 'numobjs')
+
+# The four names above the line are the defaults (what the fields are called in the reference tree); bind(prog)
+# re-derives them for the program at hand from what is done with them, so that renaming a private field or grouping
+# the task bookkeeping of the loop state into a sub-structure does not change what the rules talk about.
 
 LIST_DEL = ('iv_list_del', 'iv_list_del_init')
 LIST_ADD = ('iv_list_add', 'iv_list_add_tail')
@@ -92,6 +96,43 @@ def zero_init(x):
     return True
 
 
+def int_value(x):
+    """value of an integer constant expression (a literal, possibly negated), else None"""
+    x = strip(x)
+    if isinstance(x, dict) and x.get('k') == 'int':
+        return x['v']
+    if isinstance(x, dict) and x.get('k') == 'un' and x.get('op') == '-':
+        v = int_value(x['e'])
+        return -v if v is not None else None
+    if isinstance(x, dict) and x.get('k') == 'paren':
+        return int_value(x.get('e'))
+    return None
+
+
+def step_of(e, key):
+    """+1 / -1 when the store event e steps the member `key` by one in place (`++`, `--`, `+= 1`, `-= 1`, `+= -1`,
+    `f = f + 1`, `f = 1 + f`, `f = f - 1`), else None"""
+    if e['ev'] != 'store' or last_member(e['lhs']) != key:
+        return None
+    op = e.get('op')
+    if op == '++':
+        return 1
+    if op == '--':
+        return -1
+    v = int_value(e.get('rhs')) if op in ('+=', '-=') else None
+    if v in (1, -1):
+        return v if op == '+=' else -v
+    if op == '=':
+        r = strip(e.get('rhs'))
+        if isinstance(r, dict) and r.get('k') == 'bin' and r.get('op') in ('+', '-'):
+            for a, b in ((r['l'], r['r']), (r['r'], r['l'])):
+                if last_member(a) == key and canon(strip(a)) == canon(strip(e['lhs'])) and int_value(b) in (1, -1):
+                    if r['op'] == '-' and a is not r['l']:
+                        return None
+                    return int_value(b) if r['op'] == '+' else -int_value(b)
+    return None
+
+
 def addr_of_member(x):
     """(record, field) when x is &P->f / &S.f, else None."""
     x = strip(x)
@@ -107,6 +148,23 @@ def addr_of_local(x):
         v = var_of(x['e'])
         if v is not None and v.get('vk') == 'local':
             return v['name']
+    return None
+
+
+def batch_address(g, x):
+    """canonical spelling of the list head whose address expression x is: `&L` for a local list head L, `&P->f.g` for
+    a list head embedded in an object; None for anything else (NULL, a loaded pointer)"""
+    x = strip(x)
+    if not (isinstance(x, dict) and x.get('k') == 'addr'):
+        return None
+    m = strip(x['e'])
+    v = var_of(m)
+    if v is not None:
+        return '&' + v['name'] if v.get('vk') == 'local' and v.get('record') == 'iv_list_head' and not v.get('ptr') else None
+    if isinstance(m, dict) and m.get('k') == 'member':
+        fd = last_member(m)
+        if fd and fd != LINK and fd[0] != 'iv_list_head' and m.get('trecord') == 'iv_list_head' and not m.get('tptr'):
+            return canon(x)
     return None
 
 
@@ -150,29 +208,107 @@ def _reads(e, key, skip=('load',)):
     return False
 
 
+def mentioning(prog, key):
+    """functions in which the member (record, field) occurs at all: read, written, or its address taken"""
+    return roles.functions_with(prog, lambda e: e['ev'] != 'load' and any(k == key for k in members(e)))
+
+
 def handler_users(prog):
     """functions that take the value of a task's handler field (to call it, cache it or pass it on)"""
     return roles.functions_with(prog, lambda e: _reads(e, HANDLER))
 
 
+def _stable_address(x):
+    """x is `&L`, `&L.f.g`, `&R->f.g` with L a local object / R a pointer variable: an address that depends on nothing
+    but (the value of) its root variable.  Returns the root variable name, else None."""
+    x = strip(x)
+    if not (isinstance(x, dict) and x.get('k') == 'addr'):
+        return None
+    m = strip_dots(x['e'])
+    v = var_of(m)
+    if v is not None:
+        return v['name'] if v.get('vk') == 'local' else None
+    if isinstance(m, dict) and m.get('k') == 'member' and m.get('arrow'):
+        b = m['base']
+        while isinstance(b, dict) and b.get('k') == 'load':
+            b = b['e']
+        r = var_of(b) if isinstance(b, dict) and b.get('k') == 'var' else None
+        if r is not None and r.get('vk') in ('local', 'param'):
+            return r['name']
+    return None
+
+
+def strip_dots(m):
+    """the expression below the trailing `.field` steps of an lvalue"""
+    m = strip(m)
+    while isinstance(m, dict) and m.get('k') == 'member' and not m.get('arrow'):
+        m = strip(m['base'])
+    return m
+
+
+def _reads_of(x, names):
+    return {n['e']['name'] for n in walk(x) if n.get('k') == 'load' and isinstance(n.get('e'), dict)
+            and n['e'].get('k') == 'var' and n['e']['name'] in names}
+
+
 def propagate_addresses(g):
-    """Reads of a pointer local whose only definition is `p = &L` (L a local; p never address-taken) are replaced by &L,
-    so that `batch = &tasks; ... iv_list_empty(batch)` reads like `iv_list_empty(&tasks)`.  (core.copy_propagate leaves
-    address values alone.)  Works in place on an inlined copy."""
+    """Reads of a pointer local whose only definition is an address that depends on one variable only (`p = &L`,
+    `p = &st->f`, `node = &t->list`; p never address-taken) are replaced by that address when, at every read of p, the
+    variable still has the value it had when p was defined (must-analysis: p is valid from its definition until its root
+    variable is assigned).  `batch = &tasks; ... iv_list_empty(batch)` then reads like `iv_list_empty(&tasks)`, `*round += 1`
+    with `round = &st->counter` like `st->counter += 1`, `*stamp = n` with `stamp = &t->epoch` like `t->epoch = n`.
+    (core.copy_propagate leaves address values alone.)  Works in place on an inlined copy."""
     defs, bad = {}, set()
+    params = {p['name'] for p in g.params}
     for e in g.events():
         for x in walk(e):
             if x.get('k') == 'addr':
                 v = var_of(x['e'])
                 if v is not None:
                     bad.add(('&', v['name']))
+    for e in g.events():
         if e['ev'] == 'store':
             v = local_name(e['lhs'])
             if v is not None:
-                L = addr_of_local(e.get('rhs')) if e.get('op') == '=' else None
-                if L is None or defs.setdefault(v, (L, e))[0] != L:
+                root = _stable_address(e.get('rhs')) if e.get('op') == '=' else None
+                if root is None or root == v or (('&', root) in bad and var_of(strip_dots(strip(e['rhs'])['e'])) is None):
                     bad.add(v)
-    amap = {v: d[1]['rhs'] for v, d in defs.items() if v not in bad and ('&', v) not in bad and v not in {p['name'] for p in g.params}}
+                    continue
+                key = canon(e['rhs'])
+                if defs.setdefault(v, (key, e, root))[0] != key:
+                    bad.add(v)
+    cand = {v: d for v, d in defs.items() if v not in bad and ('&', v) not in bad and v not in params}
+    if cand:
+        # validity: p is valid after its definition until its root variable is assigned / declared again
+        roots = {}
+        for v, d in cand.items():
+            roots.setdefault(d[2], set()).add(v)
+
+        def tr(e, S):
+            if e['ev'] == 'decl':
+                return S - roots.get(e['name'], set()) - {e['name']}
+            if e['ev'] == 'store':
+                v = local_name(e['lhs'])
+                if v is not None:
+                    S = S - roots.get(v, set())
+                    if v in cand:
+                        S = S | {v}
+            return S
+        _, at = forward(g, frozenset(), tr, lambda a, b: a & b)
+        for b, blk in g.blocks.items():
+            for i, e in enumerate(blk.events):
+                S = at.get((b, i))
+                if S is None:
+                    continue
+                used = set()
+                for key in ('rhs', 'args', 'fnexpr', 'value', 'e', 'lhs'):
+                    if key in e and not (key == 'lhs' and local_name(e['lhs']) is not None):
+                        used |= _reads_of(e[key], cand)
+                bad |= {v for v in used if v not in S}
+            S = at.get((b, len(blk.events)))
+            if S is not None and blk.term and blk.term.get('cond') is not None:
+                bad |= {v for v in _reads_of(blk.term['cond'], cand) if v not in S}
+    amap = {v: d[1]['rhs'] for v, d in cand.items() if v not in bad}
     if not amap:
         return 0
     n = [0]
@@ -209,7 +345,21 @@ def _lh_field(m):
 def _lh_of(m):
     """address expression of the list head whose field the member access m denotes"""
     m = strip(m)
-    return strip(m['base']) if m.get('arrow') else {'k': 'addr', 'e': m['base']}
+    return m['base'] if m.get('arrow') else {'k': 'addr', 'e': m['base']}      # (wrappers kept: they carry `_was`)
+
+
+def _spellings(x):
+    """canonical spellings of x: as it stands, and with every sub-expression that replaced the read of a caching
+    local spelled with that local again"""
+    def back(nd):
+        if '_was' in nd:
+            return {'k': 'var', 'name': nd['_was'], 'vk': 'local'}
+        return None
+    return {canon(x), canon(subst(x, back))}
+
+
+def _same(x, y):
+    return bool(_spellings(x) & _spellings(y))
 
 
 def _match_list_group(stores):
@@ -227,11 +377,14 @@ def _match_list_group(stores):
     P = [parts(e) for e in stores]
     if len(P) == 2:
         for a, b in ((P[0], P[1]), (P[1], P[0])):
-            # N->prev->next = N->next ; N->next->prev = N->prev
-            if a[0] == 'next' and a[2] and a[2][1] == 'prev' and a[4] and a[4][1] == 'next' and canon(a[2][0]) == canon(a[4][0]) \
-                    and b[0] == 'prev' and b[2] and b[2][1] == 'next' and b[4] and b[4][1] == 'prev' and canon(b[2][0]) == canon(b[4][0]) \
-                    and canon(a[2][0]) == canon(b[2][0]):
-                return 'iv_list_del', [a[2][0]]
+            # N->prev->next = N->next ; N->next->prev = N->prev   (N possibly spelled once with the local that caches it
+            # and once with the access path copy propagation put in its place)
+            if a[0] == 'next' and a[2] and a[2][1] == 'prev' and a[4] and a[4][1] == 'next' and _same(a[2][0], a[4][0]) \
+                    and b[0] == 'prev' and b[2] and b[2][1] == 'next' and b[4] and b[4][1] == 'prev' and _same(b[2][0], b[4][0]) \
+                    and _same(a[2][0], b[2][0]):
+                ops = [a[2][0], a[4][0], b[2][0], b[4][0]]
+                plain = [x for x in ops if var_of(x) is not None]
+                return 'iv_list_del', [plain[0] if plain else ops[0]]
         return None
     if len(P) != 4:
         return None
@@ -299,11 +452,113 @@ def normalise_lists(g):
     return n
 
 
+_EXPR_KEYS = ('rhs', 'args', 'fnexpr', 'value', 'lhs')
+
+
+def rebind_call_results(g):
+    """The inliner replaces the call expression of an inlined helper by its result temporary only in the rest of the
+    *source block* of the call.  The `c ? a : b` expression of a conditional keeps the spelled-out call `helper(x)` in
+    the store at the join block (`abs = helper(st) ? &zero : ...`), although the call was evaluated (inlined) before the
+    branch.  Replace those too: a call expression with the callee, source location and inlining chain of an inlined
+    call reads the result temporary of that instance."""
+    inst_of, ret_of = {}, {}
+    for e in g.events():
+        if e['ev'] == 'enter' and 'callee' in e:
+            inst_of[(e['callee'], e.get('loc'), _chain_key(e))] = e.get('inst')
+        elif e['ev'] == 'leave' and e.get('retvar'):
+            ret_of[e.get('inst')] = (e['retvar'], e.get('rettype'))
+    repl = {k: ret_of[i] for k, i in inst_of.items() if i in ret_of}
+    if not repl:
+        return 0
+    n = [0]
+    for blk in g.blocks.values():
+        for e in blk.events:
+            if e['ev'] in ('enter', 'leave', 'load', 'decl'):
+                continue
+            ck = _chain_key(e)
+
+            def r(nd, ck=ck):
+                if nd.get('k') == 'call' and (nd.get('callee'), nd.get('loc'), ck) in repl:
+                    nm, ty = repl[(nd.get('callee'), nd.get('loc'), ck)]
+                    n[0] += 1
+                    return {'k': 'load', 'e': {'k': 'var', 'name': nm, 'vk': 'local', 'type': ty}}
+                return None
+            for key in ('rhs', 'args', 'fnexpr', 'value'):
+                if key in e:
+                    e[key] = subst(e[key], r)
+    return n[0]
+
+
+def _chain_key(e):
+    return tuple(tuple(c) for c in (e.get('chain') or ()))
+
+
+def resimplify(g):
+    """core.simplify once more over the whole inlined graph.  Parameter substitution and copy propagation create
+    `*&out = v` (an out-parameter bound to the address of a local), `(&head)->next`, and `head.next != &head` (the test
+    `lh != &head` with `lh` a cache of `head.next`) after the loader's own simplification ran: they become `out = v`,
+    `head.next`, `!iv_list_empty(&head)`."""
+    def unload(nd):
+        # `*load(&X)`: the value of an address expression needs no load (core.simplify only sees `*&X`)
+        if nd.get('k') == 'deref':
+            b = nd.get('e')
+            while isinstance(b, dict) and b.get('k') == 'load' and isinstance(b.get('e'), dict):
+                b = b['e']
+            if isinstance(b, dict) and b.get('k') == 'addr' and b is not nd.get('e'):
+                return dict(nd, e=subst(b, unload))
+        return None
+
+    def simp(x):
+        return simplify(subst(x, unload))
+    for blk in g.blocks.values():
+        for e in blk.events:
+            for key in _EXPR_KEYS:
+                if key in e and isinstance(e[key], (dict, list)):
+                    e[key] = simp(e[key])
+            if e['ev'] == 'load' and isinstance(e.get('e'), dict):
+                e['e'] = simp(e['e'])
+        if blk.term and isinstance(blk.term.get('cond'), dict):
+            blk.term = dict(blk.term, cond=simp(blk.term['cond']))
+
+
+def fold_constant_branches(g):
+    """A merged worker selected by a constant argument (`worker(t, 1)` / `worker(t, 0)`) leaves branches on constants
+    (`if (!1)`) after parameter substitution: remove the edge that cannot be taken and the code that is no longer
+    reachable, so that each exported entry point is analysed with its own half of the worker only."""
+    from ..core import fold
+    n = 0
+    for blk in g.blocks.values():
+        if not blk.term or blk.term.get('cond') is None or len(blk.succ) != 2 or blk.term.get('cls') in ('SwitchStmt', 'MethodDispatch'):
+            continue
+        c = strip(fold(blk.term['cond']))
+        if isinstance(c, dict) and c.get('k') in ('int', 'null'):
+            truth = bool(c.get('v', 0))
+            blk.succ = [blk.succ[0 if truth else 1]]
+            blk.term = {k: v for k, v in dict(blk.term, pruned=('false' if truth else 'true'), cls='Pruned').items() if k != 'cond'}
+            n += 1
+    if n:
+        seen, work = set(), [g.entry]
+        while work:
+            b = work.pop()
+            if b in seen or b is None or b not in g.blocks:
+                continue
+            seen.add(b)
+            work += list(g.blocks[b].succ)
+        for b in list(g.blocks):
+            if b not in seen and b != g.exit:
+                del g.blocks[b]
+        g._preds = None
+    return n
+
+
 def inline_root(prog, f, **kw):
     """the root with its helpers inlined, plus the local normalisations (addresses cached in pointer locals,
-    written-out list primitives)"""
+    written-out list primitives, out-parameters, results of inlined helpers read in a later block)"""
     g = Inliner(prog, **kw).inline(f)
     propagate_addresses(g)
+    rebind_call_results(g)
+    resimplify(g)
+    fold_constant_branches(g)
     normalise_lists(g)
     return g
 
@@ -387,6 +642,189 @@ def may_touch_tasks(prog):
 
 
 # --------------------------------------------------------------------------
+# identity by role: which fields are the link node, the round stamp, the round counter, the pending list and the
+# running-batch pointer
+# --------------------------------------------------------------------------
+
+def _is_int_field(fd):
+    return 'record' not in fd and not fd.get('fnptr') and '*' not in fd.get('type', '') and '[' not in fd.get('type', '')
+
+
+def _member_type(prog, key):
+    """field description of (record, field) from the record layout"""
+    for fd in (prog.records.get(key[0]) or {}).get('fields', []):
+        if fd['name'] == key[1]:
+            return fd
+    return {}
+
+
+def _cond_exprs(f):
+    for blk in f.blocks.values():
+        if blk.term and blk.term.get('cond') is not None and blk.term.get('cls') != 'SwitchStmt':
+            yield blk.term['cond']
+    for e in f.events():
+        if e['ev'] in ('store', 'call', 'ret'):
+            for x in walk(e):
+                if x.get('k') == 'cond':
+                    yield x['c']
+                elif x.get('k') == 'bin' and x.get('op') in ('==', '!='):
+                    yield x
+
+
+def _unique(votes, what):
+    if not votes:
+        raise AnalysisBroken('role not found: %s' % what)
+    best = max(votes.values())
+    top = sorted(k for k, v in votes.items() if v == best)
+    if len(top) != 1:
+        raise AnalysisBroken('role ambiguous: %s could be %s' % (what, ', '.join('%s.%s' % k for k in top)))
+    return top[0]
+
+
+def _flows_into(g, x, depth=0, seen=None):
+    """the non-local expressions whose value can reach expression x through copies of locals and `?:` arms"""
+    x = strip(x)
+    seen = set() if seen is None else seen
+    if not isinstance(x, dict) or depth > 6:
+        return []
+    if x.get('k') == 'cond':
+        return _flows_into(g, x['a'], depth + 1, seen) + _flows_into(g, x['b'], depth + 1, seen)
+    n = local_name(x)
+    if n is None:
+        return [x]
+    if n in seen:
+        return []
+    seen.add(n)
+    out = []
+    for e in g.events():
+        if e['ev'] == 'store' and e.get('op') == '=' and 'rhs' in e and local_name(e['lhs']) == n:
+            out += _flows_into(g, e['rhs'], depth + 1, seen)
+    return out
+
+
+def bind(prog):
+    """Derive the roles of the private fields for this program and bind the module-level names to them:
+
+      LINK     the list node embedded in the task record (its only list-head member)
+      STAMP    the integer member of the task record (the one compared with a member of another record, if several)
+      COUNTER  the integer outside the task record that stamps are compared with / copied from and that the function
+               calling the task handlers advances
+      PENDING  the list head whose elements the function calling the task handlers detaches into a list head of its
+               own frame (else: the list head that registration links a task's node to by address)
+      CURRENT  the list-head pointer through which that function publishes the address of that local list (else: the
+               pointer member whose value registration links a task's node to)
+
+    Raises AnalysisBroken when a role has no or no unique bearer.  Cached on the program object."""
+    global LINK, STAMP, COUNTER, PENDING, CURRENT
+    cached = prog.__dict__.get('_h06_roles')
+    if cached is None:
+        cached = prog.__dict__['_h06_roles'] = _derive_roles(prog)
+    if isinstance(cached, AnalysisBroken):
+        raise cached
+    LINK, STAMP, COUNTER, PENDING, CURRENT = cached
+    return cached
+
+
+def _derive_roles(prog):
+    try:
+        return _derive_roles1(prog)
+    except AnalysisBroken as e:
+        return e
+
+
+def _derive_roles1(prog):
+    global LINK, STAMP
+    rec = prog.records.get(TASK)
+    if not rec:
+        raise AnalysisBroken('record %s not found' % TASK)
+    links = [fd['name'] for fd in rec['fields'] if fd.get('record') == 'iv_list_head' and not fd.get('ptr')]
+    if len(links) != 1:
+        raise AnalysisBroken('the task record has %d embedded list nodes' % len(links))
+    link = (TASK, links[0])
+    ints = [(TASK, fd['name']) for fd in rec['fields'] if _is_int_field(fd)]
+    # comparisons of an integer member of the task record with an integer member of another record, and integers copied
+    # into such a member, in the exported contexts (helpers inlined: the counter may be read through an accessor)
+    cmp_votes, ctr_votes, src_votes = {}, {}, {}
+    users = roles.functions_with(prog, lambda e: any(k in ints for k in members(e)))
+    for r in minimal_roots(prog, users):
+        g = inlined(prog, r)
+        seen = set()
+        for c in _cond_exprs(g):
+            for (op, lc, rc, l, r_) in norm_cond(c, True):
+                if op not in ('==', '!='):
+                    continue
+                for a, b in ((l, r_), (r_, l)):
+                    ka, kb = last_member(a) if isinstance(a, dict) else None, last_member(b) if isinstance(b, dict) else None
+                    if ka in ints and kb and kb[0] != TASK and _is_int_field(_member_type(prog, kb) or {'record': 1}) \
+                            and (ka, kb, c.get('loc')) not in seen:
+                        seen.add((ka, kb, c.get('loc')))
+                        cmp_votes[ka] = cmp_votes.get(ka, 0) + 1
+                        ctr_votes[(ka, kb)] = ctr_votes.get((ka, kb), 0) + 1
+        for e in g.events():
+            if e['ev'] == 'store' and last_member(e['lhs']) in ints and 'rhs' in e:
+                srcs = []
+                for x in _flows_into(g, e['rhs']):
+                    srcs += [k for k in members(x)]
+                for k in set(srcs):
+                    if k[0] != TASK and _is_int_field(_member_type(prog, k) or {'record': 1}):
+                        src_votes[(last_member(e['lhs']), k, e['loc'])] = 1
+    if len(ints) == 1:
+        stamp = ints[0]
+    else:
+        stamp = _unique(cmp_votes, 'round stamp of a task (integer member of %s compared with a round counter)' % TASK)
+    votes = {}
+    for (ka, kb), n in ctr_votes.items():
+        if ka == stamp:
+            votes[kb] = votes.get(kb, 0) + n
+    for (ka, kb, loc) in src_votes:
+        if ka == stamp:
+            votes[kb] = votes.get(kb, 0) + 1
+    # the function that calls the task handlers: what it advances, detaches and publishes
+    LINK, STAMP = link, stamp
+    pend_votes, cur_votes = {}, {}
+    for r in minimal_roots(prog, handler_users(prog)):
+        g = inlined(prog, r)
+        if not any(e['ev'] == 'call' and 'fnexpr' in e and last_member(fn_target(e['fnexpr'])) == HANDLER for e in g.events()) \
+                and not any(e['ev'] == 'store' and 'rhs' in e and last_member(e['rhs']) == HANDLER for e in g.events()):
+            continue
+        published = set()
+        for e in g.events():
+            if e['ev'] == 'store':
+                k = last_member(e['lhs'])
+                if k and k in votes and step_of(e, k) is not None:
+                    votes[k] += 1
+                fd = _member_type(prog, k) if k else {}
+                if k and e.get('op') == '=' and fd.get('record') == 'iv_list_head' and fd.get('ptr') and k[0] != 'iv_list_head' \
+                        and batch_address(g, e.get('rhs')) is not None:
+                    cur_votes[k] = cur_votes.get(k, 0) + 1
+                    published.add(batch_address(g, e['rhs']))
+        for e in g.events():
+            if e['ev'] == 'call' and e.get('callee') in LIST_MOVE_OUT and len(e.get('args', [])) == 2 \
+                    and batch_address(g, e['args'][1]) in published:
+                k = addr_of_member(e['args'][0])
+                if k and k != link and k[0] != 'iv_list_head':
+                    pend_votes[k] = pend_votes.get(k, 0) + 1
+    counter = _unique(votes, 'round counter (integer that task stamps are compared with / copied from)')
+    # registration: where a task's node is linked
+    reg_p, reg_c = {}, {}
+    for r in minimal_roots(prog, mentioning(prog, link)):
+        g = inlined(prog, r)
+        for e in g.events():
+            if is_task_link(e):
+                for x in _flows_into(g, e['args'][1]):
+                    k = addr_of_member(x)
+                    if k and k != link and k[0] != 'iv_list_head':
+                        reg_p[k] = reg_p.get(k, 0) + 1
+                    k = last_member(x)
+                    fd = _member_type(prog, k) if k else {}
+                    if k and fd.get('record') == 'iv_list_head' and fd.get('ptr') and k[0] != 'iv_list_head':
+                        reg_c[k] = reg_c.get(k, 0) + 1
+    pending = _unique(pend_votes or reg_p, 'pending-task list (the list the runner detaches / registration links into)')
+    current = _unique(cur_votes or reg_c, 'running-batch pointer (list-head pointer that publishes the runner\'s local batch)')
+    return (link, stamp, counter, pending, current)
+
+
+# --------------------------------------------------------------------------
 # TaskFlow: object tokens, round counter equalities
 # --------------------------------------------------------------------------
 
@@ -400,7 +838,7 @@ class TaskFlow:
          ('H', v, T)       local v holds the handler pointer read from T
          ('E', v)          local v equals the round counter;  ('En', v): ... unless no loop state exists
          ('nostate', p)    the path took the edge on which the loop-state pointer p is NULL
-         ('P1', v)         local v equals the round counter plus one
+         ('P1', v)         local v equals the round counter plus one;  ('M1', v): ... minus one
          ('adv',)          the round counter was advanced by one since entry
          ('counted',)      the object counter was decremented since entry / the previous task handler call
     """
@@ -426,6 +864,10 @@ class TaskFlow:
 
     def edge(self, blk, si, S):
         for (op, lc, rc, l, r) in _cond_atoms(blk, si):
+            if op == 'const':
+                if lc == 'False':
+                    return None
+                continue
             v = var_of(l)
             if op == '==' and rc == '0' and v is not None and v.get('record') == STATE and v.get('ptr'):
                 S = S | {('nostate', v['name'])}
@@ -450,15 +892,21 @@ class TaskFlow:
                 return 'Cn'
             if ('P1', n) in S:
                 return 'P1'
+            if ('M1', n) in S:
+                return 'M1'
             return None
         if k == 'member' and last_member(x) == COUNTER:
             return 'C'
-        if k == 'incdec' and x.get('op') == '++' and x.get('prefix') and last_member(x['e']) == COUNTER:
+        if k == 'incdec' and x.get('op') in ('++', '--') and x.get('prefix') and last_member(x['e']) == COUNTER:
             return 'C'          # the increment itself is a separate, earlier store event
-        if k == 'bin' and x.get('op') == '+':
+        if k == 'bin' and x.get('op') in ('+', '-'):
+            # the counter stepped by one, in either direction: a round number no stamp of the previous round equals
             for a, b in ((x['l'], x['r']), (x['r'], x['l'])):
-                if is_int(b, 1) and self.val(a, S) == 'C':
-                    return 'P1'
+                if x['op'] == '-' and a is not x['l']:
+                    continue
+                d = int_value(b)
+                if d in (1, -1) and self.val(a, S) == 'C':
+                    return 'P1' if (d if x['op'] == '+' else -d) == 1 else 'M1'
             return None
         if k == 'cond':
             res = []
@@ -511,7 +959,7 @@ class TaskFlow:
     # -- transfer ----------------------------------------------------------
     @staticmethod
     def _kill_var(S, v):
-        return frozenset(x for x in S if not ((x[0] in ('env', 'E', 'En', 'P1', 'H', 'nostate', 'gone') and x[1] == v) or (x[0] == 'alias' and x[2] == v)))
+        return frozenset(x for x in S if not ((x[0] in ('env', 'E', 'En', 'P1', 'M1', 'H', 'nostate', 'gone') and x[1] == v) or (x[0] == 'alias' and x[2] == v)))
 
     @staticmethod
     def _kill_tok(S, t):
@@ -544,7 +992,7 @@ class TaskFlow:
                 for x in S:
                     if x[0] in ('env', 'H') and x[1] == w:
                         add.add((x[0], v, x[2]))
-                    elif x[0] in ('E', 'En', 'P1') and x[1] == w:
+                    elif x[0] in ('E', 'En', 'P1', 'M1') and x[1] == w:
                         add.add((x[0], v))
             else:
                 val = self.val(rhs, S)
@@ -552,8 +1000,8 @@ class TaskFlow:
                     add.add(('E', v))
                 elif val == 'Cn':
                     add.add(('En', v))
-                elif val == 'P1':
-                    add.add(('P1', v))
+                elif val in ('P1', 'M1'):
+                    add.add((val, v))
                 if last_member(r) == HANDLER:
                     t = self.token_of(object_root(r), S)
                     if t is not None:
@@ -584,13 +1032,13 @@ class TaskFlow:
         op = e.get('op')
         if lm == COUNTER:
             r = e.get('rhs')
-            loc_eq = frozenset(x for x in S if x[0] in ('E', 'En', 'P1'))
-            if op == '++' or (op == '+=' and is_int(r, 1)):
+            loc_eq = frozenset(x for x in S if x[0] in ('E', 'En', 'P1', 'M1'))
+            if step_of(e, COUNTER) is not None:
                 return (S - loc_eq) | {('adv',)}
             if op == '=' and r is not None:
                 w = local_name(r)
                 val = self.val(r, S)
-                if val == 'P1':
+                if val in ('P1', 'M1'):
                     S = (S - loc_eq) | {('adv',)}
                     return S | ({('E', w)} if w else frozenset())
                 if val == 'C':
@@ -607,7 +1055,7 @@ class TaskFlow:
                 return frozenset(x for x in S if x[0] != 'stamp')
             return S
         if lm == NUMOBJS:
-            if op == '--' or (op == '-=' and is_int(e.get('rhs'), 1)):
+            if step_of(e, NUMOBJS) == -1:
                 return S | {('counted',)}
             return S
         if any(s_[0] == 'iv_list_head' for s_ in steps) or strip(e['lhs']).get('k') in ('deref', 'index'):
@@ -701,6 +1149,8 @@ def _switch_atoms(blk, si):
     if truth:
         if cv == 'default':
             rest = {0, 1} - {v for v in cases if v != 'default'}
+            if not rest:
+                return [('const', 'False', '', c, c)]       # both truth values have a case of their own
             return norm_cond(c, rest == {1}) if len(rest) == 1 else []
         return norm_cond(c, cv == 1) if cv in (0, 1) else [('const', 'False', '', c, c)]
     if cv != 'default' and isinstance(cv, int):
@@ -748,6 +1198,52 @@ def _sem_atoms(atoms, env):
             out.append(('differs', op == '!='))
         elif rc == '0' and (last_member(l) == CURRENT or _env_get(env, local_name(l) or '') == 'R'):
             out.append(('running', op == '!='))
+        elif rc == '0':
+            # an int local that holds the truth value of such tests
+            b = _env_get(env, local_name(l) or '')
+            if isinstance(b, tuple) and b[0] == 'b':
+                out += list(b[1] if op == '!=' else b[2])
+    return out
+
+
+def _is_truth_expr(x):
+    x = strip(x)
+    return isinstance(x, dict) and ((x.get('k') == 'bin' and x.get('op') in ('==', '!=', '&&', '||')) or (x.get('k') == 'un' and x.get('op') == '!'))
+
+
+def _truth_value(x, env):
+    """('b', facts when true, facts when false) for an expression that is the truth value of tests that matter"""
+    if not _is_truth_expr(x):
+        return None
+    T = frozenset(_sem_atoms(norm_cond(x, True), env))
+    F = frozenset(_sem_atoms(norm_cond(x, False), env))
+    return ('b', T, F) if (T or F) else None
+
+
+def _array_slot(x):
+    """'A[i]' when x is element i (a constant) of the local array A"""
+    x = strip(x)
+    if isinstance(x, dict) and x.get('k') == 'index':
+        a, i = local_name(strip_load(x['base'])), int_value(x.get('idx'))
+        if a is not None and i is not None:
+            return '%s[%d]' % (a, i)
+    return None
+
+
+def _index_alts(x, env, atoms):
+    """[(index value, facts)] for the index expression of a table look-up: a constant, or a truth value (0 / 1)"""
+    v = int_value(x)
+    if v is not None:
+        return [(v, frozenset())]
+    b = _env_get(env, local_name(x) or '')
+    if not (isinstance(b, tuple) and b[0] == 'b'):
+        b = _truth_value(x, env)
+    if b is None:
+        return None
+    out = []
+    for val, facts in ((1, b[1]), (0, b[2])):
+        if not any((k, not v_) in atoms for (k, v_) in facts):
+            out.append((val, frozenset(facts)))
     return out
 
 
@@ -767,6 +1263,15 @@ def _target_alts(x, env, atoms):
         return [('P', frozenset())]
     if last_member(x) == CURRENT:
         return [('R', frozenset())]
+    if isinstance(x, dict) and x.get('k') == 'index' and local_name(strip_load(x['base'])) is not None:
+        # a table of list pointers held in a local array, indexed by a constant or by the truth value of the tests
+        ia = _index_alts(x.get('idx'), env, atoms)
+        if ia is not None:
+            out = []
+            for (i, facts) in ia:
+                val = _env_get(env, '%s[%d]' % (local_name(strip_load(x['base'])), i))
+                out.append((val if val in ('P', 'R') else '?', facts))
+            return out
     n = local_name(x)
     if n is not None and _env_get(env, n) in ('P', 'R'):
         return [(_env_get(env, n), frozenset())]
@@ -784,26 +1289,53 @@ def link_alts(g):
         env, atoms, n = s
         ev = e['ev']
         if ev == 'decl':
+            env = frozenset(x for x in env if not x[0].startswith(e['name'] + '['))
             return (_env_set(env, e['name'], None), atoms, n)
         if ev == 'store':
             v = local_name(e['lhs'])
             if v is not None:
+                env = frozenset(x for x in env if not x[0].startswith(v + '['))
                 if e.get('op') != '=' or 'rhs' not in e:
                     return (_env_set(env, v, None), atoms, n)
+                r = strip(e['rhs'])
+                if isinstance(r, dict) and r.get('k') == 'init' and r.get('elems'):
+                    # `T *q[] = { a, b }`
+                    outs = [(_env_set(env, v, None), atoms, n)]
+                    for i, el in enumerate(r['elems']):
+                        nxt = []
+                        for (env_, atoms_, n_) in outs:
+                            for (val, extra) in _target_alts(el, env_, atoms_):
+                                nxt.append((_env_set(env_, '%s[%d]' % (v, i), val if val != '?' else None), atoms_ | extra, n_))
+                        outs = nxt
+                    return outs
+                b = _truth_value(e['rhs'], env)
+                if b is not None:
+                    return (_env_set(env, v, b), atoms, n)
                 outs = []
                 for (val, extra) in _target_alts(e['rhs'], env, atoms):
                     outs.append((_env_set(env, v, val if val != '?' else None), atoms | extra, n))
                 return outs
+            slot = _array_slot(e['lhs'])
+            if slot is not None:
+                if e.get('op') != '=' or 'rhs' not in e:
+                    return (_env_set(env, slot, None), atoms, n)
+                return [(_env_set(env, slot, val if val != '?' else None), atoms | extra, n)
+                        for (val, extra) in _target_alts(e['rhs'], env, atoms)]
+            lx = strip(e['lhs'])
+            if isinstance(lx, dict) and lx.get('k') == 'index' and local_name(strip_load(lx['base'])) is not None:
+                a = local_name(strip_load(lx['base']))        # element with an unknown index: the whole table is unknown
+                return (frozenset(x for x in env if not x[0].startswith(a + '[')), atoms, n)
             keys = set(lvalue_steps(e['lhs'])) | {last_member(e['lhs'])}
             if STAMP in keys or COUNTER in keys:
                 atoms = frozenset(a for a in atoms if a[0] != 'differs')
+                env = frozenset(x for x in env if not (isinstance(x[1], tuple) and x[1][0] == 'b'))
             if CURRENT in keys:
                 atoms = frozenset(a for a in atoms if a[0] != 'running')
-                env = frozenset(x for x in env if x[1] != 'R')
+                env = frozenset(x for x in env if x[1] != 'R' and not (isinstance(x[1], tuple) and x[1][0] == 'b'))
             return (env, atoms, n)
         if ev == 'call':
             if 'fnexpr' in e:
-                return (frozenset(x for x in env if x[1] != 'R'), frozenset(), n)
+                return (frozenset(x for x in env if x[1] != 'R' and not (isinstance(x[1], tuple) and x[1][0] == 'b')), frozenset(), n)
             if is_task_link(e):
                 return (env, atoms, min(n + 1, 2))
             for a in e.get('args', []):
@@ -814,7 +1346,10 @@ def link_alts(g):
 
     def edge(blk, si, s):
         env, atoms, n = s
-        new = _sem_atoms(_cond_atoms(blk, si), env)
+        ca = _cond_atoms(blk, si)
+        if any(a[0] == 'const' and a[1] == 'False' for a in ca):
+            return None
+        new = _sem_atoms(ca, env)
         if any((k, not v) in atoms for (k, v) in new):
             return None
         return (env, atoms | frozenset(new), n)
@@ -836,14 +1371,31 @@ def link_alts(g):
 # WaitFlow: the main loop between two kernel waits
 # --------------------------------------------------------------------------
 
+def empty_test(atom):
+    """(head address expression, True when the atom says the list is empty / False when not empty) for a branch fact that
+    is an emptiness test of a list head, however it is written: `iv_list_empty(H)` tested for truth, or a link field of the
+    head compared with the head's own address (`H->next == H`, `&X == X.prev`, either operand order)."""
+    (op, lc, rc, l, r) = atom
+    if op not in ('==', '!='):
+        return None
+    c = strip(l)
+    if isinstance(c, dict) and c.get('k') == 'call' and c.get('callee') == 'iv_list_empty' and rc == '0' and c.get('args'):
+        return (c['args'][0], op == '!=')
+    for a, b in ((l, r), (r, l)):
+        if isinstance(a, dict) and isinstance(b, dict) and _lh_field(a):
+            head = _lh_of(a)
+            if canon(head) == canon(b):
+                return (head, op == '==')
+    return None
+
+
 def _pending_test(atom, env):
     """'E' / 'N' when the atom says that the pending-task list is empty / not empty"""
-    (op, lc, rc, l, r) = atom
-    c = strip(l)
-    if isinstance(c, dict) and c.get('k') == 'call' and c.get('callee') == 'iv_list_empty' and rc == '0' and op in ('==', '!=') and c.get('args'):
-        a = c['args'][0]
+    t = empty_test(atom)
+    if t is not None:
+        a = t[0]
         if addr_of_member(a) == PENDING or _env_get(env, local_name(a) or '') == 'PEND':
-            return 'E' if op == '!=' else 'N'
+            return 'E' if t[1] else 'N'
     return None
 
 
@@ -913,6 +1465,31 @@ class WaitFlow:
             return ('pb', p)
         return None
 
+    def arm_values(self, x, s):
+        """[(value, outcome of the pending test)] the expression can have in state s.  A `c ? a : b` contributes the arms
+        whose condition the state allows (its condition was evaluated at the branch before the arms: it only filters).
+        A look-up `table[i]` in a local array contributes the slots the index can select; an index that is the truth
+        value of the pending test is evaluated with the expression itself, so each slot comes with its outcome."""
+        r = strip(x)
+        if isinstance(r, dict) and r.get('k') == 'cond':
+            out = []
+            for pol, arm in ((True, r['a']), (False, r['b'])):
+                s2 = self._refine(norm_cond(r['c'], pol), s, learn=False)
+                if s2 is not None:
+                    out += self.arm_values(arm, s2)
+            return out
+        if isinstance(r, dict) and r.get('k') == 'index' and local_name(strip_load(r['base'])) is not None:
+            a = local_name(strip_load(r['base']))
+            pend, env = s[0], s[1]
+            iv = self.value(r.get('idx'), env, pend)
+            if isinstance(iv, tuple) and iv[0] == 'c':
+                return [(_env_get(env, '%s[%d]' % (a, iv[1])), pend)]
+            p = iv[1] if isinstance(iv, tuple) and iv[0] == 'pb' else None
+            if p is not None:           # pend is '?' here (value() folds a known outcome into a constant)
+                return [(_env_get(env, '%s[%d]' % (a, int(p))), 'N'), (_env_get(env, '%s[%d]' % (a, int(not p))), 'E')]
+            return [(None, pend)]
+        return [(self.value(x, s[1], s[0]), s[0])]
+
     def zero_object(self, x):
         """x is &G with G a file-scope / static timespec that is zero-initialised and never written anywhere"""
         x = strip(x)
@@ -921,6 +1498,18 @@ class WaitFlow:
         v = var_of(x['e'])
         if v is None or v.get('vk') not in ('global', 'staticlocal') or v.get('record') != 'timespec' or v.get('ptr'):
             return False
+        if v.get('vk') == 'staticlocal':
+            # a function-scope static: const-qualified, zero-initialised (no initialiser, or zeros) and never assigned
+            if 'const' not in v.get('type', ''):
+                return False
+            ds = [e for e in self.g.events() if e['ev'] == 'decl' and e['name'] == v['name']]
+            if not ds or any(not e.get('static') or ('init' in e and not zero_init(e['init'])) for e in ds):
+                return False
+            for e in self.g.events():
+                if e['ev'] == 'store' and var_of(strip_dots(e['lhs'])) is not None and var_of(strip_dots(e['lhs']))['name'] == v['name'] \
+                        and not (e.get('op') == '=' and zero_init(e.get('rhs'))):
+                    return False
+            return True
         if self.prog.global_writers(v['name']):
             return False
         unit = self.prog.unit_of(getattr(self.g, 'inlined_from', None) or self.g)
@@ -929,7 +1518,10 @@ class WaitFlow:
             return False
         return 'init' not in gl or zero_init(gl['init'])
 
-    def _refine(self, atoms, s):
+    def _refine(self, atoms, s, learn=True):
+        """the state restricted by branch facts; None when they contradict it.  learn=False (the condition of a `?:`
+        re-read at the join, after the arms ran): a direct test of the list only filters by what is still known, it
+        does not establish an outcome that a call in an arm may have invalidated"""
         pend, env, zeros, ran = s
         for atom in atoms:
             (op, lc, rc, l, r) = atom
@@ -938,6 +1530,8 @@ class WaitFlow:
                     return None
                 continue
             t = _pending_test(atom, env)
+            if t is not None and not learn and pend == '?':
+                continue
             v = local_name(l)
             if t is None and v is not None and rc.lstrip('-').isdigit():
                 val = _env_get(env, v)
@@ -965,11 +1559,18 @@ class WaitFlow:
         if isinstance(r, dict) and r.get('k') == 'cond':
             out = []
             for pol, arm in ((True, r['a']), (False, r['b'])):
-                s2 = self._refine(norm_cond(r['c'], pol), s)
+                s2 = self._refine(norm_cond(r['c'], pol), s, learn=False)
                 if s2 is not None:
                     out += self._assign(v, arm, s2)
             return out
         pend, env, zeros, ran = s
+        if isinstance(r, dict) and r.get('k') == 'index' and local_name(strip_load(r['base'])) is not None:
+            out = []
+            for (val, pn) in self.arm_values(rhs, s):       # a table look-up: one state per slot the index can select
+                if isinstance(val, tuple) and val[0] in ('c', 'pb') and v not in self.tested:
+                    val = None
+                out.append((pn, _env_set(env, v, val), zeros, ran))
+            return out
         val = self.value(rhs, env, pend)
         if isinstance(val, tuple) and val[0] in ('c', 'pb') and v not in self.tested:
             val = None
@@ -994,10 +1595,13 @@ class WaitFlow:
     def transfer(self, e, s):
         pend, env, zeros, ran = s
         ev = e['ev']
+        if ev == 'store' and self.is_taskrun(e):
+            ran = True                       # the round counter is stepped: a round of tasks begins
+            s = (pend, env, zeros, ran)
         if ev == 'decl':
             nm = e['name']
             zeros = frozenset(z for z in zeros if z[0] != nm)
-            env = frozenset(x for x in env if x[0] != nm and x[1] != ('addr', nm))
+            env = frozenset(x for x in env if x[0] != nm and x[1] != ('addr', nm) and not x[0].startswith(nm + '['))
             if e.get('record') == 'timespec' and not e.get('ptr') and 'init' in e and zero_init(e['init']):
                 zeros = zeros | {(nm, 'tv_sec'), (nm, 'tv_nsec')}
             return (pend, env, zeros, ran)
@@ -1009,8 +1613,31 @@ class WaitFlow:
                     lv = var_of(e['lhs'])
                     if lv.get('record') == 'timespec' and not lv.get('ptr') and zero_init(e['rhs']):
                         return (pend, env, zeros | {(v, 'tv_sec'), (v, 'tv_nsec')}, ran)
+                    src = var_of(e['rhs'])
+                    if lv.get('record') == 'timespec' and not lv.get('ptr') and src is not None and src.get('record') == 'timespec' \
+                            and not src.get('ptr'):
+                        # structure assignment: the copy has the zero fields of its source
+                        if src.get('vk') == 'local':
+                            zs = {(v, f) for (L, f) in zeros if L == src['name']}
+                        else:
+                            zs = {(v, 'tv_sec'), (v, 'tv_nsec')} if self.zero_object({'k': 'addr', 'e': src}) else set()
+                        return (pend, _env_set(env, v, None), zeros | zs, ran)
                     return self._assign(v, e['rhs'], (pend, env, zeros, ran))
                 return (pend, _env_set(env, v, None), zeros, ran)
+            slot = _array_slot(e['lhs'])
+            lx = strip(e['lhs'])
+            if isinstance(lx, dict) and lx.get('k') == 'index' and local_name(strip_load(lx['base'])) is not None \
+                    and strip_load(lx['base']).get('record') != 'timespec':
+                # an element of a local table (of pointers / integers): not a timespec object
+                a = local_name(strip_load(lx['base']))
+                if slot is None or e.get('op') != '=' or 'rhs' not in e:
+                    return (pend, frozenset(x for x in env if not x[0].startswith(a + '[')), zeros, ran)
+                outs = []
+                for (val, pn) in self.arm_values(e['rhs'], s):
+                    if isinstance(val, tuple) and val[0] in ('c', 'pb'):
+                        val = None
+                    outs.append((pend, _env_set(env, slot, val), zeros, ran))
+                return outs
             tf = self._timespec_field(e['lhs'], env)
             if tf is not None:
                 if e.get('op') == '=' and is_int(e.get('rhs'), 0):
@@ -1039,6 +1666,8 @@ class WaitFlow:
                 t = callee_of(self.prog, self.g, e) if c else None
                 for i, a in enumerate(args):
                     konst = t is not None and i < len(t.params) and 'const' in t.params[i].get('type', '')
+                    if local_name(a) is not None and not konst:
+                        env = frozenset(x for x in env if not x[0].startswith(local_name(a) + '['))     # a table handed to the callee
                     n = addr_of_local(a)
                     if n is not None:
                         # &L handed to the callee: L may change (unless the parameter points to const)
@@ -1056,6 +1685,35 @@ class WaitFlow:
 # --------------------------------------------------------------------------
 # small must-analyses on an inlined root
 # --------------------------------------------------------------------------
+
+def deadline_params(t):
+    """indices of the parameters of t that are pointers to a timespec"""
+    return [i for i, p in enumerate(t.params) if p.get('record') == 'timespec' and p.get('ptr')]
+
+
+def always_begins_round(prog, t):
+    """every path through t (helpers and callees inlined) to its return advances the round counter (in whatever way
+    TaskFlow accepts: in place, or through a local that holds the stepped value)"""
+    memo = prog.__dict__.setdefault('_h06_always', {})
+    if t.q not in memo:
+        g = inlined(prog, t)
+        at = TaskFlow(prog, g).at
+        pts = [p for p in exit_points(g) if p in at]
+        memo[t.q] = bool(pts) and all(('adv',) in at[p] for p in pts)
+    return memo[t.q]
+
+
+def advancing_stores(prog, g):
+    """program points (block, index) of the stores in g that advance the round counter"""
+    tf = TaskFlow(prog, g)
+    out = set()
+    for e in g.events():
+        if e['ev'] == 'store' and last_member(e['lhs']) == COUNTER:
+            S = tf.at.get((e['_b'], e['_i']))
+            if S is not None and ('adv',) in tf.transfer(e, S - {('adv',)}):
+                out.add((e['_b'], e['_i']))
+    return out
+
 
 def exit_points(g):
     """program points at which the root returns: its own return statements and the fall-through into the exit block"""
